@@ -62,7 +62,34 @@ func mutateStmt(rng *rand.Rand) string {
 	nm := 1 + rng.Intn(3)
 	for m := 0; m < nm && len(toks) > 1; m++ {
 		i := rng.Intn(len(toks))
-		switch rng.Intn(5) {
+		switch rng.Intn(6) {
+		case 5: // nest a call: f ( … )  →  f ( f ( … ) ), closing parenthesis at the end of the clause text
+			fromEnd := rng.Intn(2) == 0 // prefer the last call of the statement half of the time
+			for j := 0; j+1 < len(toks); j++ {
+				k := (i + j) % (len(toks) - 1)
+				if fromEnd {
+					k = len(toks) - 2 - j
+				}
+				if toks[k].kind == "w" && toks[k+1].kind == "o" && toks[k+1].op == "lparen" {
+					ins := []srcTok{toks[k], opT("lparen")}
+					toks = append(toks[:k], append(ins, toks[k:]...)...)
+					// close it after the matching parenthesis of the inner call
+					depth, end := 0, len(toks)
+					for e := k + 3; e < len(toks); e++ {
+						if toks[e].kind == "o" && toks[e].op == "lparen" {
+							depth++
+						} else if toks[e].kind == "o" && toks[e].op == "rparen" {
+							depth--
+							if depth == 0 {
+								end = e + 1
+								break
+							}
+						}
+					}
+					toks = append(toks[:end], append([]srcTok{opT("rparen")}, toks[end:]...)...)
+					break
+				}
+			}
 		case 0:
 			toks = append(toks[:i], toks[i+1:]...)
 		case 1:
@@ -120,7 +147,7 @@ func genTotalCase(rng *rand.Rand, tier string) Case {
 			c.Stat = append(c.Stat, s)
 		}
 	}
-	for i := 0; i < 20; i++ {
+	for i := 0; i < 50; i++ {
 		var s string
 		switch k := rng.Intn(20); {
 		case k < 4:
